@@ -358,6 +358,94 @@ pub struct ParentArgs {
     pub watchdog: Duration,
 }
 
+/// With TV_TRACE_STREAM=1 every engine trace line is also written to stderr as it is produced, so that
+/// the steps leading up to a crash (which takes the in-memory trace with it) can be recovered.
+pub fn trace_stream(line: &str) {
+    use std::sync::OnceLock;
+    static ON: OnceLock<bool> = OnceLock::new();
+    if *ON.get_or_init(|| std::env::var_os("TV_TRACE_STREAM").is_some()) {
+        crate::alloc::untracked(|| eprintln!("T| {}", line));
+    }
+}
+
+/// Delta-debugging of a crashing case: the oracle is "a fresh child process replaying the case dies
+/// the same way" (same signal, or same non-zero exit code). Removes blocks of op records (ddmin),
+/// then lowers bytes towards 0 (the most benign decoding). Bounded by attempts and wall clock.
+fn shrink_crash(bin: &str, dir: &Path, prop: &str, tier: Tier, flavour: &str, engine: &str, case: &ByteCase, want: (Option<i32>, Option<i32>), per_attempt: Duration, budget: Duration) -> (ByteCase, u32) {
+    let start = Instant::now();
+    let mut attempts = 0u32;
+    let mut best = case.clone();
+    let scratch = dir.join(format!("shrink-{}-{}.case", prop, std::process::id()));
+    let mut still = |c: &ByteCase, attempts: &mut u32| -> bool {
+        if *attempts >= 600 || start.elapsed() > budget {
+            return false;
+        }
+        *attempts += 1;
+        let txt = format!("property={}\ntier={}\nflavour={}\nengine={}\ncase={}\nsig=crash\n", prop, tier.name(), flavour, engine, c.to_hex());
+        if std::fs::write(&scratch, txt).is_err() {
+            return false;
+        }
+        let o = crate::child::run(bin, &["replay".into(), scratch.to_string_lossy().into_owned(), "--quiet".into()], &[], per_attempt);
+        !o.timed_out && (o.signal, o.code) == want
+    };
+    // 1. ddmin over op records
+    let mut chunk = (best.ops.len() + 1) / 2;
+    while chunk >= 1 && !best.ops.is_empty() {
+        let mut i = 0;
+        let mut removed_any = false;
+        while i < best.ops.len() {
+            let mut c = best.clone();
+            let end = (i + chunk).min(c.ops.len());
+            c.ops.drain(i..end);
+            if still(&c, &mut attempts) {
+                best = c;
+                removed_any = true;
+            } else {
+                i += chunk;
+            }
+        }
+        if chunk == 1 && !removed_any {
+            break;
+        }
+        chunk = if chunk == 1 { if removed_any { 1 } else { 0 } } else { (chunk + 1) / 2 };
+        if chunk == 0 {
+            break;
+        }
+    }
+    // 2. bytes towards zero: whole params block, then single bytes of params and ops
+    {
+        let mut c = best.clone();
+        for b in c.params.iter_mut() {
+            *b = 0;
+        }
+        if c != best && still(&c, &mut attempts) {
+            best = c;
+        }
+    }
+    for i in 0..best.params.len() {
+        if best.params[i] != 0 {
+            let mut c = best.clone();
+            c.params[i] = 0;
+            if still(&c, &mut attempts) {
+                best = c;
+            }
+        }
+    }
+    for i in 0..best.ops.len() {
+        for k in 1..4 {
+            if best.ops[i][k] != 0 {
+                let mut c = best.clone();
+                c.ops[i][k] = 0;
+                if still(&c, &mut attempts) {
+                    best = c;
+                }
+            }
+        }
+    }
+    let _ = std::fs::remove_file(&scratch);
+    (best, attempts)
+}
+
 fn write_replay(prop: &str, tier: Tier, flavour: &str, engine: &str, case_hex: &str, sig: &str, msgs: &[String], trace: &[String]) -> PathBuf {
     let dir = verif_root().join("replays");
     let _ = std::fs::create_dir_all(&dir);
@@ -427,6 +515,11 @@ pub fn parent(plan: &Plan, a: &ParentArgs) -> i32 {
     }
 
     let mut violation_lines: Vec<String> = vec![];
+    let mut seen_crash: BTreeSet<String> = BTreeSet::new();
+    let mut more_crashes = 0u64;
+    // wall-clock budget for delta debugging of crash inputs, over the whole run
+    let shrink_budget = Duration::from_secs(90);
+    let mut shrink_spent = Duration::ZERO;
     let mut n_viol = 0i64;
     let mut inconclusive: Vec<String> = vec![];
 
@@ -477,6 +570,7 @@ pub fn parent(plan: &Plan, a: &ParentArgs) -> i32 {
             children.push((i, out, ch));
         }
         for (i, out, mut ch) in children {
+            let _ = &mut more_crashes;
             let status = loop {
                 match ch.try_wait() {
                     Ok(Some(s)) => break Some(s),
@@ -517,20 +611,57 @@ pub fn parent(plan: &Plan, a: &ParentArgs) -> i32 {
                                 &[format!("worker terminated abnormally ({:?}) while running this case", s)],
                                 &[],
                             );
+                            let t_replay = Instant::now();
                             let o = crate::child::run(
                                 bin,
                                 &["replay".into(), path.to_string_lossy().into_owned(), "--quiet".into()],
                                 &[],
                                 Duration::from_secs(120),
                             );
+                            let per_attempt = t_replay.elapsed() * 4 + Duration::from_millis(1500);
                             if o.code == Some(0) || o.timed_out {
                                 inconclusive.push(format!("worker {} ({}) died with {:?}; the case did not reproduce in a fresh process", i, fl, s));
                                 let _ = std::fs::remove_file(&path);
                             } else {
+                                // one report per (flavour, engine, termination): every worker of a job usually dies of the same cause
+                                if !seen_crash.insert(format!("{}|{}|{:?}|{:?}", fl, engine, o.signal, o.code)) {
+                                    more_crashes += 1;
+                                    let _ = std::fs::remove_file(&path);
+                                    continue;
+                                }
                                 n_viol += 1;
                                 println!("crash confirmed in a fresh process: {:?} / replay exit {:?} signal {:?}", s, o.code, o.signal);
                                 for l in o.stdout.lines().filter(|l| l.starts_with("FAILED-CLAUSE")) {
                                     println!("  {}", l);
+                                }
+                                // shrink (delta debugging against "dies the same way in a fresh process"), then
+                                // recover the steps before the crash from a streamed trace
+                                let (small, attempts) = shrink_crash(bin, &tmp, &a.property, a.tier, fl, &engine, &_c, (o.signal, o.code), per_attempt, shrink_budget.saturating_sub(shrink_spent));
+                                shrink_spent += t_replay.elapsed();
+                                let _ = std::fs::remove_file(&path);
+                                let tmp_path = write_replay(&a.property, a.tier, fl, &engine, &small.to_hex(), "crash", &[], &[]);
+                                let t = crate::child::run(
+                                    bin,
+                                    &["replay".into(), tmp_path.to_string_lossy().into_owned(), "--quiet".into()],
+                                    &[("TV_TRACE_STREAM", "1".to_string())],
+                                    Duration::from_secs(120),
+                                );
+                                let trace: Vec<String> = t.stderr.lines().filter_map(|l| l.strip_prefix("T| ").map(|x| x.to_string())).collect();
+                                let last_err: Vec<String> = t.stderr.lines().filter(|l| !l.starts_with("T| ")).rev().take(3).map(|x| x.to_string()).collect();
+                                let mut msgs = vec![
+                                    format!("worker terminated abnormally ({:?}) while running the original case; a fresh process replaying it ends with exit {:?} signal {:?}", s, o.code, o.signal),
+                                    format!("shrunk from {} to {} op records in {} replay attempts (delta debugging, oracle: same termination)", _c.ops.len(), small.ops.len(), attempts),
+                                ];
+                                for l in last_err.into_iter().rev() {
+                                    msgs.push(format!("stderr: {}", l));
+                                }
+                                let path = write_replay(&a.property, a.tier, fl, &engine, &small.to_hex(), "crash", &msgs, &trace);
+                                if path != tmp_path {
+                                    let _ = std::fs::remove_file(&tmp_path);
+                                }
+                                println!("  shrunk to {} op records ({} attempts); last steps before the crash:", small.ops.len(), attempts);
+                                for l in trace.iter().rev().take(4).collect::<Vec<_>>().into_iter().rev() {
+                                    println!("    {}", l);
                                 }
                                 violation_lines.push(format!("VIOLATION property={} replay={}", a.property, path.display()));
                             }
@@ -609,6 +740,9 @@ pub fn parent(plan: &Plan, a: &ParentArgs) -> i32 {
             }
             violation_lines.push(format!("VIOLATION property={} replay={}", a.property, path.display()));
         }
+    }
+    if more_crashes > 0 {
+        println!("({} further workers died the same way as a reported crash)", more_crashes);
     }
     if samples.is_empty() {
         samples.push(json!({"note": "no non-trivial case in this run"}));
